@@ -1,13 +1,14 @@
 from props import P
 
 CFG = P(
-        harness=["harness/C10.cc", "harness/C10_r2.cc"], harness_deps=["harness/C10_common.hh"],
+        harness=["harness/C10.cc", "harness/C10_r2.cc", "harness/C10_r3.cc"], harness_deps=["harness/C10_common.hh"],
         srcs=["Hash.cc", "Strings.cc", "Filesystem.cc", "Process.cc", "Time.cc", "Encoding.cc"],
         ldflags=["-lcrypto"],
         oracle="C10",
         rule="a case is one (function, length, fill pattern) triple, one (function, input, split point[s], overload combination set) tuple, one call HISTORY (2-3 calls, or a whole sweep over all "
-             "lengths, executed inside the case), one (function, overload, storage, content sequence) tuple, one (seed with its prefix witness, overload, suffix) tuple or one (function, overload, "
-             "input, context) tuple; tuples are distinct by construction; every case is non-trivial (the library result(s) and the independent reference are computed and compared) except the "
+             "lengths, executed inside the case), one (function, overload, storage, content sequence) tuple, one (seed with its prefix witness, overload, suffix) tuple, one (function, overload, "
+             "input, context) tuple, one (digest algorithm, digest VALUE) pair (the value written into the public state words of an object; its renderings and those of the values reached by complementing one word "
+             "after the other are judged inside the case) or one (function, overload, length, background octet, position, octet value) tuple; tuples are distinct by construction; every case is non-trivial (the library result(s) and the independent reference are computed and compared) except the "
              "fnv1a64 calls with a seed for which no prefix is known (executed, not compared, not counted as non-trivial)",
         bounds={
             "quick": "lengths: MD5, SHA-1, SHA-256, crc32, fnv1a32, fnv1a64 on every length 0..300 x 6 fills (00, FF, counter, LCG, all-high-bit, ASCII), every overload (ptr+size, std::string, implicit "
@@ -17,9 +18,15 @@ CFG = P(
                      "combinations; cross: f(A),g(B),f(A) for all 30 ordered function pairs x 96^2 shape pairs; triples: 16^3 shape triples per function, 8^3 length triples per digest mix; sweeps: "
                      "all lengths 0..300 in one case in 4 orders; storage: same buffer / same std::string with replaced content, digest objects constructed into / assigned over prior states; "
                      "misaligned: pointer offsets 1..15, 7 representations of the empty string; seeds: 120 boundary seeds (crc32 99, fnv1a32 15, fnv1a64 6) each witnessed by a prefix; context: fresh thread, catch handler, "
-                     "destructor during unwinding, nested, histories spread over 3 threads",
+                     "destructor during unwinding, nested, histories spread over 3 threads; renderings: bin()/hex() of MD5/SHA1/SHA256 objects whose state words are set to digest VALUES: all octets equal "
+                     "(256), one octet / one word different at every position over a 26-octet lane alphabet (NUL, controls, tab/LF/CR, blank, quotes, backslash, digit and hex-letter range ends, "
+                     "7E, 7F, 80, 9F, A0, FF), every word at 2^k-1, 2^k, 2^k+1, every nibble value at every nibble position, octet classes (all printable, all white space, all hex digits, all "
+                     "control, all high, counting) at every phase, one class per word in every assignment, two octets different at every position pair, printable-or-not per octet (all 2^16 for "
+                     "MD5), each as a history on one persistent object (value, then one more word complemented per step down to the complement, value again) plus fresh object / const reference / copy; 8 inputs whose real MD5 and 1 whose real SHA-1 digest is "
+                     "all-printable; content: every octet value 0..255 at the first / middle / last position of inputs of 8 lengths x backgrounds {00, FF}, every function and overload",
             "thorough": "as quick with lengths 0..4096, chain 0..300 and 1025, chain3 0..40 / read loops 0..300, pairs/cross/storage over all 64 residues (768 / 384 shapes), triples over 36 shapes, "
-                        "sweeps 0..1024, misaligned also lengths 258..520, big16m 9 sizes, huge sizes {2^29-1, 2^29, 2^29+8, 2^29+56, 2^32-1, 2^32, 2^32+56}",
+                        "sweeps 0..1024, misaligned also lengths 258..520, big16m 9 sizes, huge sizes {2^29-1, 2^29, 2^29+8, 2^29+56, 2^32-1, 2^32, 2^32+56}; renderings also with every octet value 0..255 against the lane alphabet (both ways round) at every position, 4 "
+                        "classes per word for SHA256, printable-or-not per octet for SHA1 (all 2^20); content over 29 lengths x 4 backgrounds x EVERY position x every octet value, and every 2-octet string",
         },
         explanation="E-ENUM over the real Hash.cc; oracle = OpenSSL EVP digests and zlib crc32 linked into the harness (counted in traces_validated_against_impl), FNV-1a by the published recurrence; "
                     "a Python stage re-derives the references of the lengths/boundaries/big16m sections with hashlib/zlib on independently regenerated inputs. Call histories run inside one case "
@@ -27,7 +34,10 @@ CFG = P(
         assumptions=[
             "inputs are six deterministic fill patterns (00, FF, counter, LCG seeded by the length, all-high-bit, printable ASCII) and, above 2^24+64 bytes, a 2 MiB LCG pattern mapped repeatedly; "
             "'random inputs up to 1 MiB' of the quantifier is covered by the LCG pattern at the block-boundary sizes, not by sampling",
-            "hex() is compared case-insensitively (the library prints upper case)",
+            "hex() is compared case-insensitively (the library prints upper case; the case actually seen is counted in the evidence counters) and must consist of exactly 2n hexadecimal digits",
+            "bin()/hex() are judged as functions of the public state words (MD5: a0..d0, each low-order octet first, RFC 1321 3.5; SHA-1/SHA-256: h[i] big-endian, FIPS 180-4): an object whose "
+            "words were written directly with the encoding of a digest value V is in the state every input with digest V would leave it in (the other sections verify words == reference digest "
+            "for every computed digest), so bin() must be V and hex() its hex digits; most of the enumerated values are not known to be the digest of any input",
             "a seed is compared only when the harness holds a prefix whose reference hash IS that seed (crc32: the unique 4-byte prefix of any 32-bit value, computed by running the register "
             "backwards and verified with zlib; fnv1a32: 5-byte prefixes found by meet-in-the-middle; fnv1a64: the published zero-hash string and what follows from it); fnv1a64 boundary seeds "
             "without a known prefix (1, 2^32-1, 2^32, 2^63-1, 2^63, 2^64-2, 2^64-1) are executed but not compared",
@@ -38,13 +48,15 @@ CFG = P(
         ],
         engine="E-ENUM",
         technique="exhaustive enumeration of message lengths across all padding cases, of all split points, of all ordered pairs/triples of calls over a boundary shape set (state carried between "
-                  "calls), of storage/object prior states, boundary seeds and calling contexts, compared with independent implementations (OpenSSL EVP, zlib, Python hashlib)",
+                  "calls), of storage/object prior states, boundary seeds and calling contexts, of structured digest values rendered through real objects and of octet values at input positions, compared with independent implementations (OpenSSL EVP, zlib, Python hashlib)",
         level_text="Every message length 0..300 (0..4096 thorough) with six fill patterns, block-boundary sizes up to 2^24+64 and one 2^29+56-byte input (2^32+56 thorough) are hashed by the real "
                    "MD5/SHA1/SHA256/crc32/fnv1a code through every overload and by OpenSSL/zlib/the published FNV recurrence; bin() and hex() renderings, every split point (and pair of split "
                    "points) for seed chaining, read loops with empty reads and boundary seeds with prefix witnesses are compared. Every ordered pair of calls over 192 boundary shapes (768 "
                    "thorough), triples, whole sweeps in four orders, reused storage with new content, reused digest objects, misaligned pointers and five calling contexts (threads, catch "
-                   "handlers, unwinding) are enumerated so that state carried between calls shows. References are bound a second time to Python hashlib/zlib.",
-        level_note="Trusted: OpenSSL 3 EVP, zlib and Python hashlib as the standard algorithms. Content space is six patterns per length, not all byte strings. Histories are bounded to three "
+                   "handlers, unwinding) are enumerated so that state carried between calls shows. bin() and hex() are additionally judged on the digest VALUE space (about 190 000 structured "
+                   "values in the quick tier: uniform, one-off, per-word, per-nibble, octet-class and printable/non-printable assignments) written into the objects' state words, and every octet "
+                   "value is placed at the first/middle/last position of inputs around the padding boundaries. References are bound a second time to Python hashlib/zlib.",
+        level_note="Trusted: OpenSSL 3 EVP, zlib and Python hashlib as the standard algorithms. Content space is six patterns per length plus single-octet variations of two backgrounds, not all byte strings. The digest value space is covered by structured families, not all 2^128..2^256 values. Histories are bounded to three "
                    "calls (plus whole-sweep cases) over the boundary shape set.",
         deadline={"quick": 600, "thorough": 3600},
     )
